@@ -158,6 +158,19 @@ func (w *W) Extra(k string, n int) {
 // Explore runs a deviation-bounded exploration of body and reports every violating execution.
 // Observations added with Env.Observe feed the distinct-outcome count.
 func (w *W) Explore(cfg Config, b Bounds, body func(*Env)) Stats {
+	if os.Getenv("VERIF_DEBUG") != "" {
+		cfg.KeepMenus = true
+		cfg.MaxSteps = 400
+		var pre []int
+		if w.replay != nil {
+			pre = w.replay.Choices
+		}
+		e := Exec(w.T, cfg, pre, nil, body)
+		for i, p := range e.Points {
+			fmt.Fprintf(os.Stderr, "DBG %d choice=%d %s\n", i, e.Choices[i], p.Menu)
+		}
+		fmt.Fprintf(os.Stderr, "DBG verdict=%q hang=%s viol=%v obs=%q\n", e.Verdict, e.HangInfo, e.Violations, e.Obs)
+	}
 	if w.replay != nil {
 		e := Exec(w.T, cfg, w.replay.Choices, nil, body)
 		w.account(e)
@@ -197,7 +210,7 @@ func (w *W) Explore(cfg Config, b Bounds, body func(*Env)) Stats {
 func (w *W) account(e *Env) {
 	if e.Verdict == "engine" {
 		w.res.EngineErr = e.EngineErr
-		w.emit("E", map[string]interface{}{"err": e.EngineErr, "choices": e.Choices})
+		w.emit("E", map[string]interface{}{"err": e.EngineErr, "choices": e.Choices, "scenario": w.name})
 		w.stop = true
 		return
 	}
@@ -645,6 +658,9 @@ func replayOnce(tier string, seed int64, idx int, v VRec) (sigs []string, engine
 		return nil, err.Error()
 	}
 	defer p.kill()
+	if os.Getenv("VERIF_DEBUG") != "" {
+		defer func() { fmt.Println(p.stderr.String()) }()
+	}
 	b, _ := json.Marshal(v)
 	_, _ = fmt.Fprintf(p.in, "X %d %s\n", idx, b)
 	to := time.After(5 * time.Minute)
@@ -848,6 +864,10 @@ func Main(t *testing.T, c Check) {
 		if (i < 3 || i == len(res.srecs)-1) && s.Sample != "" {
 			samples = append(samples, map[string]string{"scenario": s.Name, "case": s.Sample})
 		}
+	}
+	if dp := os.Getenv("VERIF_DUMP"); dp != "" {
+		db, _ := json.Marshal(res.srecs)
+		_ = os.WriteFile(dp, db, 0o644)
 	}
 	if len(samples) == 0 {
 		samples = append(samples, "none")
